@@ -9,7 +9,9 @@ STEP_SPEC = {
     ensures final(self).wf(), // [C05,C15:cache_invariants_kept_by_expiry]
         final(self).desired_size == old(self).desired_size,
         r == old(self).current_size - final(self).current_size, // [C15:expiry_reports_true_count]
-        r == 0 ==> clean(*final(self)), // [C15:no_expired_record_left_when_nothing_removed]""",
+        r == 0 ==> clean(*final(self)), // [C15:no_expired_record_left_when_nothing_removed]
+        expiry_step_ok(old(self).partitions@, final(self).partitions@), // [C05:expiry_removes_exactly_what_is_due]
+        forall|k: K1| #[trigger] final(self).partitions@.contains_key(k) ==> old(self).partitions@.contains_key(k),""",
     "entry": "broadcast use vstd::std_specs::hash::group_hash_axioms, axiom_borrowed_key_updated, group_time;",
     "anchors": [
         # popped entry not yet due: everything stored expires after `now`
@@ -47,7 +49,15 @@ proof { lemma_map_sum_insert(old(self).partitions@, psize::<K2, V>(), partition_
         }
     }
 }"""},
-        {"after": "partition.size -= pruned;", "at": "before", "proof": """proof {
+        {"after": "partition.size -= pruned;", "nth": -1, "at": "before", "proof": """let ghost recs_f__ = partition.records@;
+proof {
+    assert forall|k: K2| p0.records@.contains_key(k) implies (#[trigger] recs_f__[k])@ == p0.records@[k]@.filter(unexp::<V>(now)) by {
+        assert(rk.contains(k));
+        let j = choose|j: int| 0 <= j < rk.len() && rk[j] == k;
+        assert(partition.records@[rk[j]]@ == p0.records@[rk[j]]@.filter(unexp::<V>(now)));
+    }
+}
+proof {
     // every key of the partition was visited
     assert forall|k: K2| partition.records@.contains_key(k) implies exists|j: int| 0 <= j < rk.len() && rk[j] == k by {
         assert(rk.contains(k));
@@ -94,7 +104,16 @@ proof { lemma_map_sum_insert(old(self).partitions@, psize::<K2, V>(), partition_
         lemma_map_sum_all_zero(partition.records@, vlen::<(V, Instant)>());
     }
 }"""},
-        {"after": "self.current_size -= pruned;", "at": "before", "proof": """proof {
+        {"after": "self.current_size -= pruned;", "nth": -1, "at": "before", "proof": """proof {
+    assert(old(self).partitions@[partition_key] == p0);
+    if self.partitions@.contains_key(partition_key) {
+        assert(self.partitions@ =~= old(self).partitions@.insert(partition_key, self.partitions@[partition_key]));
+    } else {
+        assert(self.partitions@ =~= old(self).partitions@.remove(partition_key));
+    }
+    lemma_expired_only_step(old(self).partitions@, self.partitions@, partition_key, recs_f__, now);
+}
+proof {
     if old(self).partitions@.contains_key(partition_key) {
         if self.partitions@.contains_key(partition_key) {
             lemma_map_sum_insert(old(self).partitions@, psize::<K2, V>(), partition_key, self.partitions@[partition_key]);
